@@ -148,7 +148,8 @@ class Window(object):
         """
         # input attributse
         assert N > 0, "First argument  must be positive"
-        if name is None or name not in list(window_names.keys()):
+        # as in create_window, the name is not case sensitive (e.g. 'Hann')
+        if name is None or name.lower() not in list(window_names.keys()):
             raise ValueError("second argument must be a valid window name %s" % list(window_names.keys()))
 
         self.__N = N
